@@ -139,20 +139,33 @@ pub fn prelude(g: Fmt) {
     );
     let v = ND::Task(KD { sent: SD { term: t, punct: PunctD::Judgement, stamp: StampD::Present, truth: vec![1.0, 0.9] }, budget: vec![0.5] }).build();
     let _ = observe(|| {
+        // first the permuted-vocabulary variants of `g` (formatted, parsed, and the shipped lexical value
+        // folded with the variant as folder) for the three tenses, so that anything the library remembers
+        // per keyword string is first filled in by a format in which that string means something else
         let s = g.e().format_narsese(&v);
+        for pf in permuted_formats(g) {
+            let s2 = pf.format_narsese(&v);
+            let _ = pf.parse::<Narsese>(&s2);
+            for st in [StampD::Past, StampD::Present, StampD::Future] {
+                let v3 = ND::Sent(SD { term: TD::word("a"), punct: PunctD::Goal, stamp: st, truth: vec![0.5] }).build();
+                if let Ok(lx) = g.l().parse(&g.e().format_narsese(&v3)) {
+                    let _: Result<Narsese, _> = lx.try_fold_into(&pf);
+                }
+            }
+            if let Ok(lx) = g.l().parse(&s) {
+                let _: Result<Narsese, _> = lx.try_fold_into(&pf);
+            }
+        }
+        // a value with a negative zero (accepted by the constructors) is formatted before any other number
+        {
+            use narsese::enum_narsese::{Sentence, Stamp, Term, Truth};
+            let z = Sentence::new_judgement(Term::new_word("z"), Truth::Double(-0.0, -0.0), Stamp::Eternal);
+            let _ = g.e().format_sentence(&z);
+        }
         let _ = g.e().parse::<Narsese>(&s);
         if let Ok(lx) = g.l().parse(&s) {
             let _ = g.l().format_narsese(&lx);
             let _: Result<Narsese, _> = lx.try_fold_into(g.e());
-        }
-        // ... and the same value through the permuted-vocabulary variants of `g` (formatted, parsed, and the
-        // shipped lexical value folded with the variant as folder)
-        for pf in permuted_formats(g) {
-            let s2 = pf.format_narsese(&v);
-            let _ = pf.parse::<Narsese>(&s2);
-            if let Ok(lx) = g.l().parse(&s) {
-                let _: Result<Narsese, _> = lx.try_fold_into(&pf);
-            }
         }
         let mut h = std::collections::hash_map::DefaultHasher::new();
         if let Narsese::Task(t) = &v {
@@ -324,6 +337,36 @@ pub fn parse_multi_any<'a>(e: &'a EnumFormat<&'static str>, seq: &'a [String], j
             }
         }
     }
+}
+
+/// One `parse_multi` call over *slices of one buffer that start at the same address*: growing and
+/// shrinking prefixes of `full` (cut at character boundaries) and `full` itself.  Returns, per
+/// slice, (the slice as a String, outcome class of the batch, outcome class alone); None on a panic.
+pub fn prefix_slice_batch(f: Fmt, full: &str) -> Option<Vec<(String, String, String)>> {
+    let bounds: Vec<usize> = full.char_indices().map(|(i, _)| i).chain(std::iter::once(full.len())).collect();
+    if bounds.len() < 3 {
+        return Some(vec![]);
+    }
+    let n = bounds.len() - 1;
+    let cuts = [n, n - 1, n, n * 2 / 3, n, 0, n / 2, n];
+    let slices: Vec<&str> = cuts.iter().map(|c| &full[..bounds[*c]]).collect();
+    let class = |r: &Result<Narsese, narsese::conversion::string::impl_enum::ParseError>| match r {
+        Ok(v) => format!("Ok({})", canon_real_narsese(v)),
+        Err(_) => "Err".to_string(),
+    };
+    let batch = match observe(|| f.e().parse_multi(slices.iter().copied()).iter().map(class).collect::<Vec<_>>()) {
+        Obs::Ret(v) => v,
+        Obs::Panic(_) => return None,
+    };
+    let mut out = vec![];
+    for (i, s) in slices.iter().enumerate() {
+        let alone = match observe(|| class(&f.e().parse::<Narsese>(s))) {
+            Obs::Ret(c) => c,
+            Obs::Panic(_) => return None,
+        };
+        out.push((s.to_string(), batch.get(i).cloned().unwrap_or_else(|| "nothing".into()), alone));
+    }
+    Some(out)
 }
 
 pub fn enum_format(f: Fmt, v: &Narsese) -> Result<String, String> {
